@@ -79,6 +79,24 @@ package results
 //@   loop range:f.CheckErrVec step [only-missing-file-errors-are-dropped] oneError.ErrType != common.CheckErrorNoFile ==> len(newErrVec) == prev(len(newErrVec)) + 1
 //@ end
 
+// C18 ("the answer changes as soon as such a file is created"): a file that carries a missing-file diagnostic is
+// re-resolved on every file event, whichever spelling the unresolved module has -- every reference of it once.
+//@ func (*FileResult).isHasErrorNoFile
+//@   props C18
+//@   assigns nothing
+//@   ensures[true-iff-a-missing-file-diagnostic-is-held] result == exists(j, 0, len(f.CheckErrVec), f.CheckErrVec[j].ErrType == common.CheckErrorNoFile)
+//@   loop 0 invariant rangeindex >= -1 && forall(j, 0, rangeindex + 1, f.CheckErrVec[j].ErrType != common.CheckErrorNoFile)
+//@ end
+//@ func (*FileResult).ReanalyseReferInfo
+//@   props C18
+//@   requires fileIndexInfo != nil && forall(j, 0, len(f.ReferVec), f.ReferVec[j] != nil)
+//@   ensures[file-with-a-missing-reference-is-always-rescanned] old(exists(j, 0, len(f.CheckErrVec), f.CheckErrVec[j].ErrType == common.CheckErrorNoFile))
+//@        ==> hits("CheckReferFile#0") == old(len(f.ReferVec))
+//@   loop range:f.ReferVec invariant hits("CheckReferFile#0") == rangeindex + 1 && rangeindex + 1 <= old(len(f.ReferVec))
+//@   loop range:f.ReferVec exits-early-only-if [every-reference-is-re-resolved] false
+//@   loop range:f.ReferVec step [every-reference-is-re-resolved] hits("CheckReferFile#0") == prev(hits("CheckReferFile#0")) + 1
+//@ end
+
 //@ func CreateReferenceFileResult
 //@   props C06 C11
 //@   ensures[fresh-empty-result] result != nil && len(result.FindLocVec) == 0 && streq(result.StrFile, strFile) && result.findSymbol == nil
